@@ -35,6 +35,8 @@ struct gm_spec {
 	uint8_t payload_mode;   /* 0 none, 1 small (<=32), 2 mixed incl. >32, 3 big (4000) occasionally */
 	uint16_t post_goal;     /* events an LP keeps handling (and sending) AFTER its predicate holds, before it freezes; 0 = the
 	                           C01 family (state frozen once the predicate holds) */
+	uint8_t relay_budget;   /* per heartbeat, how many events an LP may relay UNCHANGED (same type and payload) with zero delay:
+	                           events the order cannot tell from the one being handled */
 	uint8_t drip_k;         /* drip destination mode: an LP sends to LP 0 once every drip_k handled events (0: 3 + seed % 13) */
 	uint8_t victim_nohb;    /* LP 0 has no heartbeat of its own: it only advances through events sent by the others */
 	uint8_t chain_len;      /* length of zero-delay chains (0: only the short ttl<=3 chains encoded in the type) */
